@@ -463,6 +463,7 @@ def check(pid, tier, seed, replay=None):
         known = known_signatures(pid)
         other = 0
         rejected_ids = []
+
         for ri, k, e, sig in bads:
             s, obs_lines, _ = recs[ri]
             if e["a"] not in OWN_EVENTS[pid] and not (pid == "C12" and e["a"] == "CloseRet" and sig == "Undelivered"):
